@@ -1428,7 +1428,25 @@ class SymSeq:
     def __setitem__(self, i, v):
         assert self.kind in ("list", "bytearray")
         if isinstance(i, slice):
-            raise Undecided("slice assignment on symbolic sequence")
+            if i.step is not None:
+                raise Undecided("slice assignment with a step on symbolic sequence")
+            n = z3.Length(self.e)
+
+            def norm(x, dflt):
+                if x is None:
+                    return dflt
+                ex = as_z3_int(x)
+                ex = z3.If(ex < 0, ex + n, ex)
+                return z3.If(ex < 0, z3.IntVal(0), z3.If(ex > n, n, ex))
+            a = norm(i.start, z3.IntVal(0))
+            b = norm(i.stop, n)
+            b = z3.If(b < a, a, b)       # CPython: an empty slice inserts at `start`
+            vs = SymSeq.lift(v)
+            if self.kind == "bytearray" and not vs.bounds_within(0, 256):
+                raise Undecided("slice assignment of values not known to be bytes")
+            self.elem_bounds = self._concat_bounds(vs)
+            self.e = z3.simplify(z3.Concat(z3.SubSeq(self.e, 0, a), vs.e, z3.SubSeq(self.e, b, n - b)))
+            return
         ei = as_z3_int(i)
         n = z3.Length(self.e)
         c = ctx()
